@@ -46,6 +46,8 @@ enum Cmd {
     Commit,
     BookmarkSet(u64, usize),
     TagSet(u64, usize),
+    Restore(usize, usize),
+    Metaedit(Vec<usize>),
     Snapshot,
     WorkspaceAdd,
     Observe,
@@ -120,6 +122,8 @@ fn cmd_term(c: &Cmd) -> String {
         Cmd::Commit => "CCommit".into(),
         Cmd::BookmarkSet(b, c) => format!("(CBookmarkSet {b}%N {c})"),
         Cmd::TagSet(t, c) => format!("(CTagSet {t}%N {c})"),
+        Cmd::Restore(f, i) => format!("(CRestore {f} {i})"),
+        Cmd::Metaedit(ts) => format!("(CMetaedit {})", nat_list(ts)),
         Cmd::Snapshot => "CSnapshot".into(),
         Cmd::WorkspaceAdd => "CWorkspaceAdd".into(),
         Cmd::Observe => "CObserve".into(),
@@ -139,6 +143,8 @@ fn cmd_kind(c: &Cmd) -> &'static str {
         Cmd::Commit => "commit",
         Cmd::BookmarkSet(..) => "bookmark",
         Cmd::TagSet(..) => "tag",
+        Cmd::Restore(..) => "restore",
+        Cmd::Metaedit(_) => "metaedit",
         Cmd::Snapshot => "snapshot",
         Cmd::WorkspaceAdd => "ws-add",
         Cmd::Observe => "config",
@@ -319,7 +325,7 @@ fn random_cmd(rng: &mut Rng, w: &World, ws: u64, have_ws2: bool, step: usize) ->
             _ => Cmd::Commit,
         };
     }
-    match rng.below(23) {
+    match rng.below(26) {
         0 | 1 | 2 => {
             let mut ts = vec![t];
             if rng.chance(1, 4) {
@@ -365,6 +371,8 @@ fn random_cmd(rng: &mut Rng, w: &World, ws: u64, have_ws2: bool, step: usize) ->
         15 => Cmd::Commit,
         16 | 17 => Cmd::BookmarkSet(rng.range(1, 3), *rng.pick(&w.vis)),
         18 => Cmd::TagSet(1, *rng.pick(&w.vis)),
+        23 => Cmd::Restore(*rng.pick(&w.vis), t),
+        24 => Cmd::Metaedit(vec![t]),
         19 | 20 => {
             if !have_ws2 && step >= 1 {
                 Cmd::WorkspaceAdd
@@ -471,6 +479,22 @@ fn cmd_args(c: &Cmd, w: &World, msg: &str) -> Vec<String> {
                 push(&mut a, s);
             }
             a.push(h(c));
+        }
+        Cmd::Restore(f, i) => {
+            for s in ["restore", "--from"] {
+                push(&mut a, s);
+            }
+            a.push(h(f));
+            push(&mut a, "--into");
+            a.push(h(i));
+        }
+        Cmd::Metaedit(ts) => {
+            for s in ["metaedit", "--force-rewrite"] {
+                push(&mut a, s);
+            }
+            for t in ts {
+                a.push(h(t));
+            }
         }
         Cmd::Snapshot => push(&mut a, "status"),
         Cmd::WorkspaceAdd => {
@@ -662,6 +686,13 @@ fn session(index: usize, mut rng: Rng, scratch: &Path, tier: &str) -> SessionRes
                 hexpr_text(&cfg, &w)
             ));
         }
+        // the explicit override, on a tenth of the rewriting commands
+        let override_flag = rng.chance(1, 10)
+            && matches!(
+                cmd,
+                Cmd::Describe(_) | Cmd::Abandon(_) | Cmd::RebaseS(..) | Cmd::RebaseR(..) | Cmd::Squash(..)
+                    | Cmd::Edit(_) | Cmd::NewBefore(..) | Cmd::Metaedit(_) | Cmd::Restore(..) | Cmd::Snapshot
+            );
         let mut imm_pre: Vec<usize> = w.imm.iter().copied().collect();
         let wc_pre = w.wc(ws);
         let (status, stderr) = match &cmd {
@@ -670,7 +701,11 @@ fn session(index: usize, mut rng: Rng, scratch: &Path, tier: &str) -> SessionRes
                 if matches!(c, Cmd::Snapshot) {
                     std::fs::write(ws_dir.join(format!("e{}", rng.below(3))), format!("edit {index} {step}\n")).unwrap();
                 }
-                let out = sess.jj(ws_dir, &cmd_args(c, &w, &format!("m{step}")));
+                let mut args = cmd_args(c, &w, &format!("m{step}"));
+                if override_flag {
+                    args.insert(0, "--ignore-immutable".to_string());
+                }
+                let out = sess.jj(ws_dir, &args);
                 if out.timed_out {
                     return failed_case("timeout");
                 }
@@ -752,7 +787,7 @@ fn session(index: usize, mut rng: Rng, scratch: &Path, tier: &str) -> SessionRes
             n_fixup += 1;
         }
         if let Some(c) = wc_pre {
-            if wc_pre_imm && (rewritten.contains(&c) || hidden.contains(&c)) {
+            if wc_pre_imm && !override_flag && (rewritten.contains(&c) || hidden.contains(&c)) {
                 n_known += 1;
             }
         }
@@ -768,9 +803,13 @@ fn session(index: usize, mut rng: Rng, scratch: &Path, tier: &str) -> SessionRes
         if status == 1 {
             shapes.push(format!("refused:{}", cmd_kind(&cmd)));
         }
+        if override_flag {
+            shapes.push(format!("override:{}", if status == 0 && imm_pre.iter().any(|c| rewritten.contains(c) || hidden.contains(c)) { "rewrote-immutable" } else { "no-effect" }));
+        }
         events.push(format!(
-            "(mk_event {ws}%N {} {} {status}%N {nops} {} {} {} {} {} {})",
+            "(mk_event {ws}%N {} {} {} {status}%N {nops} {} {} {} {} {} {})",
             hexpr_term(&cfg),
+            if override_flag { "true" } else { "false" },
             cmd_term(&cmd),
             graph_term(&delta.new),
             nat_list(&delta.newdisc),
